@@ -89,9 +89,15 @@ def interp_event(n1, n2, kind, double, rng, data_double=None):
                         X[tuple(idx)] = 0
                 x = np.fft.ifft2(X).real
             x = x.astype((np.complex128 if data_double else np.complex64) if kind.startswith("complex") else (np.float64 if data_double else np.float32))
+            x0 = x.copy()
             up = fft_interpolate(x, tuple(n2), normalization="values")
+            up0 = up.copy()
             back = fft_interpolate(up, tuple(n1), normalization="values")
-            ev["roundtrip_ppb"] = ppb(relmax(back, x))
+            ev["roundtrip_ppb"] = ppb(relmax(back, x0))
+            if not (np.array_equal(x, x0) and np.array_equal(up, up0)):
+                ev["roundtrip_ppb"] = 2_000_000_000          # the caller's array was modified by the interpolation
+                ev["input_modified"] = True
+            x = x0
             # the mean is preserved to the precision of the data: deviation relative to the magnitude of the values
             ev["mean_ppb"] = ppb(abs(np.mean(up) - np.mean(x)) / float(np.abs(x).max()))
             upi = fft_interpolate(x, tuple(n2), normalization="intensity")
